@@ -164,3 +164,45 @@ def rng_terms(t):
 
 def is_rng_draw(t, rng=Sym('rng')):
     return t is not None and t[0] == 'app' and t[1] == 'Rng' and t[2][0] == rng
+
+
+def role_term(ctx, sn, summary, param_idx, param_sym, what, k=0):
+    """term `param.<path>` for the field of the parameter's type playing the given role (name-free)"""
+    S = ctx.suite(sn)
+    ty = summary.body['locals'][param_idx]['ty']
+    r = S.role(ty, what)
+    if len(r) <= k:
+        return None
+    t = param_sym
+    for n in r[k]:
+        t = ('fld', t, n)
+    return t
+
+
+def field_where(v, pred):
+    """first field value of an adt value satisfying pred (roles by content, not by field name)"""
+    if v is not None and v[0] == 'adt':
+        for _, x in v[3]:
+            if pred(x):
+                return x
+    return None
+
+
+def msg_eval(msg):
+    """the OPRF evaluation element of a server message value"""
+    return field_where(msg, lambda x: x is not None and x[0] == 'app' and x[1] == 'Eval')
+
+
+def msg_envelope(upload):
+    """the envelope value inside a registration upload: the nested struct that carries the MAC"""
+    return field_where(upload, lambda x: x is not None and x[0] == 'adt' and any(f is not None and f[0] == 'app' and f[1] == 'Mac' for _, f in x[3]))
+
+
+def msg_masked(msg):
+    """the masked-response value of a credential response: the nested struct made of slices of one xor term"""
+    return field_where(msg, lambda x: x is not None and x[0] == 'adt' and bool(find_apps(x, 'xor')) and not find_apps(x, 'Mac'))
+
+
+def msg_pubkey(msg):
+    """the (single) public-key field of a message value"""
+    return field_where(msg, lambda x: x is not None and ((x[0] == 'adt' and x[1].endswith('keypair::PublicKey')) or (x[0] == 'fld' and not x[2].isdigit() and False)))
